@@ -870,7 +870,10 @@ def check(ck, P, rule, only=None):
         for f in fns:
             for s_, t_ in rust_atoms(f):
                 root_toks |= set(getattr(t_, "own", t_))
+        own_fn = all(f.path in PAIRS.get(key, []) for f in fns)
         for fld in table.get("absent", {}).get(key, []):
+            if not own_fn:
+                break           # the function was folded into its caller: the caller's tests are not its own
             n += 1
             ck.decide(fld not in root_toks, rule, "%s:no-test:%s" % (cname, fld), "does not test the caller's buffers",
                       "zlib-ng's %s never looks at strm->%s; %s now decides on it: a call that the reference accepts (a stream without "
